@@ -14,7 +14,9 @@ Limit  == [kind : {"limit"}, max : {1, 2}, ups : {1, 2}, via : {"max_connections
            policy : {"first", "round_robin", "least_conn", "random"}]
           \cup [kind : {"limit"}, max : {1, 2}, ups : {1}, via : {"partial_dial"}, policy : {"first"}]
 \* hport: the active checks go to a separate health port (`port`); the service port keeps accepting throughout
-Active == [kind : {"active"}, interval : {60, 150}, hport : BOOLEAN]
+\* defint: no interval configured (documented default: 30 s); only the check made when the handler starts is observed
+Active == [kind : {"active"}, interval : {60, 150}, hport : BOOLEAN, defint : {FALSE}]
+          \cup [kind : {"active"}, interval : {60}, hport : {FALSE}, defint : {TRUE}]
 Grid == Window \cup Retry \cup Limit \cup Active
 QuickGrid == { g \in Grid : (g.kind = "retry" => g.D < 1000 /\ g.I # 250) /\ (g.kind = "window" => (g.F = 300 \/ g.script = 7)) /\ (g.kind = "active" => g.interval = 60) }
 VARIABLE g
